@@ -481,7 +481,15 @@ func main() {
 			break
 		}
 		if attempt == 3 {
-			run.Fatal("control run fails (the scripted server or the harness is wrong): %s", bad)
+			if len(p.harness) > 0 {
+				run.Fatal("control run fails (the scripted server or the harness is wrong): %s", bad)
+			}
+			// the client does not get through a conversation with a correct server: reported as a violation
+			// (three attempts agree), deviations are not enumerated
+			run.Eval(1)
+			run.Violation("control/correct-server-conversation-fails", map[string]any{"msg": bad})
+			controlViolates = true
+			break
 		}
 		p.harness = nil
 	}
